@@ -50,6 +50,7 @@ func init() { register("C04", runC04) }
 type c04Out struct {
 	lines []string
 	stats map[string]int64
+	quiet bool // wall-clock dependent job: judged by the oracle, but no CASE lines (the case file stays reproducible)
 }
 
 func (o *c04Out) stat(k string, n int64) { o.stats[k] += n }
@@ -61,6 +62,9 @@ func (o *c04Out) fail(class, input, did, want string) {
 	o.stat("oraclefail_"+class, 1)
 }
 func (o *c04Out) mcase(p *tak.Position, m tak.Move) {
+	if o.quiet {
+		return
+	}
 	cls := "OK"
 	var err error
 	if pan, _ := safely(func() { _, err = p.Move(m) }); pan {
@@ -202,6 +206,23 @@ func c04GenPosition(r *rand.Rand, size int, kind string) *tak.Position {
 		var p *tak.Position
 		switch kind {
 		case "opening":
+			if r.Intn(2) == 0 { // the usual openings: the first stones go into corners
+				p = tak.New(randCfg(r, size))
+				for k, plies := 0, r.Intn(4); k < plies; k++ {
+					legal := legalMoves(p)
+					var corner []tak.Move
+					for _, m := range legal {
+						if (m.X == 0 || int(m.X) == size-1) && (m.Y == 0 || int(m.Y) == size-1) && !m.IsSlide() {
+							corner = append(corner, m)
+						}
+					}
+					if len(corner) > 0 && r.Intn(4) != 0 {
+						legal = corner
+					}
+					p, _ = p.Move(legal[r.Intn(len(legal))])
+				}
+				break
+			}
 			ps, _ := randomGame(r, randCfg(r, size), r.Intn(4), -1, false)
 			p = ps[len(ps)-1]
 		case "middle":
@@ -343,11 +364,12 @@ type c04MMCfg struct {
 	window                                  int64
 	seed                                    int64
 	evk                                     int // 0 default evaluator, 1 EvaluateWinner
+	plant                                   int // simulated hash collisions: 1 root entry (decisive, shallow), 2 entries for the children, 3 both
 }
 
 func (k c04MMCfg) String() string {
-	return fmt.Sprintf("mm size=%d depth=%d table=%d nosort=%d nonull=%d noreduce=%d multicut=%d dedup=%d maxevals=%d timeout=%d window=%d seed=%d eval=%d",
-		k.size, k.depth, k.tableMem, b2i(k.nosort), b2i(k.nonull), b2i(k.noreduce), b2i(k.multicut), b2i(k.ded), k.maxEvals, k.timeoutMs, k.window, k.seed, k.evk)
+	return fmt.Sprintf("mm size=%d depth=%d table=%d nosort=%d nonull=%d noreduce=%d multicut=%d dedup=%d maxevals=%d timeout=%d window=%d seed=%d eval=%d plant=%d",
+		k.size, k.depth, k.tableMem, b2i(k.nosort), b2i(k.nonull), b2i(k.noreduce), b2i(k.multicut), b2i(k.ded), k.maxEvals, k.timeoutMs, k.window, k.seed, k.evk, k.plant)
 }
 
 func (k c04MMCfg) mk() *ai.MinimaxAI {
@@ -360,6 +382,56 @@ func (k c04MMCfg) mk() *ai.MinimaxAI {
 		cfg.Evaluate = ai.EvaluateWinner
 	}
 	return ai.NewMinimax(cfg)
+}
+
+// c04IllegalMove: a well-formed move value that is illegal in p (what a colliding table entry would hold).
+func c04IllegalMove(r *rand.Rand, p *tak.Position) (tak.Move, bool) {
+	n := p.Size()
+	for try := 0; try < 200; try++ {
+		m := tak.Move{X: int8(r.Intn(n)), Y: int8(r.Intn(n)), Type: tak.MoveType(2 + r.Intn(7))}
+		if m.IsSlide() {
+			m.Slides = tak.MkSlides(1 + r.Intn(2))
+			if r.Intn(2) == 0 {
+				m.Slides = m.Slides.Prepend(1)
+			}
+		}
+		if _, err := p.Move(m); err != nil && absOf(p).rulesMove(m) == nil {
+			return m, true
+		}
+	}
+	return tak.Move{}, false
+}
+
+// c04Plant simulates hash collisions before a call: entries with the hashes of p / of p's children holding illegal moves.
+func c04Plant(o *c04Out, eng *ai.MinimaxAI, k c04MMCfg, p *tak.Position, seed int64) {
+	r := rand.New(rand.NewSource(seed))
+	d := k.depth
+	if d == 0 {
+		d = 15
+	}
+	if k.plant&1 != 0 && d >= 2 {
+		// exact, decisive, shallower than the search: the shortcut test passes at the root, the seed of Analyze is replaced by iteration 1
+		if m, ok := c04IllegalMove(r, p); ok && ai.VerifPlantTable(eng, p.Hash(), m, ai.WinThreshold+1+r.Int63n(1000), 1, 1) {
+			o.stat("mm_planted_root_entries", 1)
+		}
+	}
+	if k.plant&2 != 0 {
+		for i, cm := range legalMoves(p) {
+			if i%3 != int(seed%3) {
+				continue
+			}
+			q, err := p.Move(cm)
+			if err != nil {
+				continue
+			}
+			if over, _ := q.GameOver(); over {
+				continue
+			}
+			if m, ok := c04IllegalMove(r, q); ok && ai.VerifPlantTable(eng, q.Hash(), m, r.Int63n(2001)-1000, 1, 15) {
+				o.stat("mm_planted_child_entries", 1)
+			}
+		}
+	}
 }
 
 type c04Call struct {
@@ -383,6 +455,7 @@ func c04RunMM(o *c04Out, k c04MMCfg, calls []c04Call) {
 		}
 		return "minimax-panic"
 	}
+	o.quiet = k.timeoutMs > 0
 	var eng *ai.MinimaxAI
 	if pan, msg := safely(func() { eng = k.mk() }); pan {
 		o.fail(panicClass(msg), k.String()+" calls=", "NewMinimax panicked: "+msg, "no crash")
@@ -406,6 +479,9 @@ func c04RunMM(o *c04Out, k c04MMCfg, calls []c04Call) {
 			d = 15
 		}
 		o.stat(fmt.Sprintf("mm_depth%d", d), 1)
+		if k.plant != 0 {
+			c04Plant(o, eng, k, p, k.seed+int64(i))
+		}
 		var pan bool
 		var msg string
 		switch call.mode {
@@ -863,6 +939,9 @@ func c04RandMMCfg(r *rand.Rand, size int, thorough bool) c04MMCfg {
 	if r.Intn(8) == 0 {
 		k.evk = 1
 	}
+	if k.tableMem >= 4096 && k.timeoutMs == 0 && r.Intn(3) == 0 {
+		k.plant = 1 + r.Intn(3)
+	}
 	return k
 }
 
@@ -888,7 +967,7 @@ func runC04(c *ctx) {
 	}
 
 	// ---- alpha-beta: engines reused over several calls ----
-	nmm := 130 * c.scale
+	nmm := 160 * c.scale
 	for j := 0; j < nmm; j++ {
 		size := 3 + j%6
 		k := c04RandMMCfg(r, size, thorough)
@@ -981,7 +1060,7 @@ func runC04(c *ctx) {
 	}
 
 	// ---- Monte-Carlo ----
-	nmc := 96 * c.scale
+	nmc := 128 * c.scale
 	if thorough {
 		nmc = 1200
 	}
@@ -995,12 +1074,32 @@ func runC04(c *ctx) {
 		kind := c04Kinds[r.Intn(len(c04Kinds))]
 		if k.corners && r.Intn(2) == 0 {
 			kind = "opening"
+		} else if k.policy == "place_win" && r.Intn(5) < 2 { // rollouts in which a player runs out of flat stones
+			kind = "lowres"
 		}
 		pp, ok := newPos(size, kind)
 		if !ok {
 			continue
 		}
 		jobs = append(jobs, c04Job{desc: k.String(), run: func(o *c04Out) { c04RunMCTS(o, k, pp) }})
+	}
+
+	// corner forcing answers at once in the two opening plies: sweep first stones (every corner, some other squares) x seeds
+	for size := 3; size <= 8; size++ {
+		type xy struct{ x, y int }
+		firsts := []xy{{0, 0}, {size - 1, 0}, {0, size - 1}, {size - 1, size - 1}, {r.Intn(size), r.Intn(size)}, {-1, -1}}
+		for _, f := range firsts {
+			p := tak.New(tak.Config{Size: size})
+			if f.x >= 0 {
+				p, _ = p.Move(tak.Move{X: int8(f.x), Y: int8(f.y), Type: tak.PlaceFlat})
+			}
+			pp := c04Pos{p, "opening"}
+			allPos = append(allPos, pp)
+			for sd := 0; sd < 3*c.scale; sd++ {
+				k := c04MCCfg{size: size, seed: 1 + r.Int63n(1<<30), policy: []string{"uniform", "place_win"}[r.Intn(2)], corners: true, limitMs: 20}
+				jobs = append(jobs, c04Job{desc: k.String(), run: func(o *c04Out) { c04RunMCTS(o, k, pp) }})
+			}
+		}
 	}
 
 	// ---- run, print in job order ----
@@ -1112,7 +1211,7 @@ func c04Replay(c *ctx) {
 	case "mm":
 		k := c04MMCfg{size: int(atoi(kv["size"])), depth: int(atoi(kv["depth"])), tableMem: atoi(kv["table"]), nosort: kv["nosort"] == "1",
 			nonull: kv["nonull"] == "1", noreduce: kv["noreduce"] == "1", multicut: kv["multicut"] == "1", ded: kv["dedup"] == "1",
-			maxEvals: uint64(atoi(kv["maxevals"])), timeoutMs: int(atoi(kv["timeout"])), window: atoi(kv["window"]), seed: atoi(kv["seed"]), evk: int(atoi(kv["eval"]))}
+			maxEvals: uint64(atoi(kv["maxevals"])), timeoutMs: int(atoi(kv["timeout"])), window: atoi(kv["window"]), seed: atoi(kv["seed"]), evk: int(atoi(kv["eval"])), plant: int(atoi(kv["plant"]))}
 		var calls []c04Call
 		for _, cs := range strings.Split(kv["calls"], "+") {
 			if len(cs) < 3 {
